@@ -41,6 +41,7 @@ def cmp_forge(prop, case, model, mat, F, variant, final):
                     "unlinked": "a predicate proven about a made-up value (response not linked to the credential attribute, layout %s)" % case["class"].get("layout"),
                     "duplicate_predicate": "a repeated predicate proof standing in for a requested predicate that is false of the credential",
                     "split_hidden": "a hidden value split into a hidden part and an unrequested revealed entry for '%s' (the credential's value is not what was proven)" % case["class"].get("attr"),
+                    "fake_revealed": "a value proven hidden and claimed revealed for '%s' (made-up revealed value, compensated in m)" % case["class"].get("attr"),
                     }.get(kind, "a forged document (%s)" % kind)
             if prop == "C02":
                 F.oracle_failure("forgery_rejected", "%s: %s was ACCEPTED by the real verifier" % (case["id"], what), case, variant)
